@@ -299,7 +299,8 @@ def loc_counters(ctx) -> list[dict]:
         splits = any(isinstance(n, ast.Call) and call_name(n) in ("split", "splitlines") for n in ast.walk(g.node))
         slices = any(isinstance(n, ast.Subscript) and isinstance(n.slice, ast.Slice) for n in ast.walk(g.node))
         return splits and slices and g.parent is None
-    cands = [f for f in repo.funcs_in("src.linters.srp.") if _is_counter(f)]
+    by_name = [f for f in repo.funcs_in("src.linters.srp.") if f.name in ("count_loc", "_node_loc") and f.cls is None or f.name == "_node_loc"]
+    cands = by_name + [f for f in repo.funcs_in("src.linters.srp.") if _is_counter(f) and f not in by_name]
     seen = set()
     for f in cands:
         if f.qual in seen:
